@@ -297,6 +297,14 @@ func (s *Store) Close() error {
 	return footer.Close()
 }
 
+// isClosed returns whether the last ref-count on the store was released.
+func (s *Store) isClosed() bool {
+	s.m.Lock()
+	closed := s.refs <= 0
+	s.m.Unlock()
+	return closed
+}
+
 // CloseEx provides more advanced closing options.
 func (s *Store) CloseEx(options StoreCloseExOptions) error {
 	if options.Abort {
